@@ -39,7 +39,7 @@ CLAIMS['C18'] = dict(
          'the validity alias groups, REGISTERS and the sp/ip names are extracted from the MIR of each impl and compared name by name (about 2300 obligations: same names, same place for get and set, '
          'plain field read / plain store of `val`, distinct places for distinct canonical names, aliases memoize to a canonical name with the same place, validity honoured through both spellings, '
          'sp/ip accessors read the named place, every dispatcher arm delegates to its own variant\'s impl, get_register guards get_register_always with register_is_valid). All obligations are enumerated and '
-         'discharged on every run, which is a proof of the table-level statement given Rust\'s field-assignment semantics; it is exhaustive over names, not sampled. default_memoize_register is an exact-equality position() search returning the table\'s own spelling. The dispatcher-level enumerations are covered too: MinidumpContext::valid_registers is registers() filtered by the per-CPU register_is_valid (never a raw lookup in the validity set, which may hold aliases), and every arm of general_purpose_registers returns its own variant\'s REGISTERS (the Self type of the associated constant is read from MIR) or an equal list.',
+         'discharged on every run, which is a proof of the table-level statement given Rust\'s field-assignment semantics; it is exhaustive over names, not sampled. default_memoize_register is an exact-equality position() search returning the table\'s own spelling. The dispatcher-level enumerations are covered too: MinidumpContext::valid_registers is registers() filtered by the per-CPU register_is_valid (never a raw lookup in the validity set, which may hold aliases), the trait-level enumeration walks the plain REGISTERS slice for All only and the filtered walk for every Some(_) (decided per variant of MinidumpContextValidity), and every arm of general_purpose_registers returns its own variant\'s REGISTERS (the Self type of the associated constant is read from MIR) or an equal list.',
     note='Trusted base: rustc nightly MIR construction (string-literal match lowering), the mirfacts extractor, the PathExplorer in py/mirq.py, Rust semantics of field assignment and slice indexing with constant indices. Values are never computed.',
     ref='DESIGN.md §3 C18')
 CLAIMS['C03'] = dict(
@@ -82,7 +82,7 @@ CLAIMS['C16'] = dict(
     text='Cache atomicity as facts about every CFG path, hence every interruption point: commit_cache_file is called only from fetch_symbol_file, only after the Ok edge of parse_async and only with a live temp file; '
          'persist_noclobber happens only after the end-of-body edge of the download loop; files are created only through NamedTempFile::new_in(tmp) (no clobbering / keeping / renaming APIs anywhere in the crate); the temp file is written only by the data callback '
          '(exactly the bytes it was handed; a failed write drops the temp file), by the INFO URL trailer that dominates the persist, and by the raw chunk loop; the local lookup dominates every download and only Err(NotFound) cascades; '
-         'the INFO URL line round-trips into SymbolFile.url. RAII deletion of NamedTempFile on drop/cancellation and the atomicity of persist_noclobber are trusted. The temp file is created exactly once before streaming starts and outside the data callback, which may only give the handle up (C16.6). C16.7: the raw download path is not reachable for FileKind::BreakpadSym (known finding).',
+         'the INFO URL line round-trips into SymbolFile.url. RAII deletion of NamedTempFile on drop/cancellation and the atomicity of persist_noclobber are trusted. The temp file is created exactly once before streaming starts and outside the data callback, which may only give the handle up (C16.6). C16.7: the raw download path is not reachable for FileKind::BreakpadSym (known finding). C16.8: in both parse loops Ok(parser.finish()) is reached only on the `fully_consumed` edge, so an accepted (and therefore committed) body has no unparsed tail in front of the INFO URL note.',
     note='Trusted: tempfile (delete on drop, atomic persist_noclobber), reqwest, the file system. That the callback receives exactly the consumed bytes is C10.1.',
     ref='DESIGN.md §3 C16')
 
@@ -114,7 +114,7 @@ CLAIMS['C07'] = dict(
     text='Narrow claim: structural clauses of the STACK WIN semantics. The operator table of eval_win_expr (same rules as C06 on u32 plus `=` and `.undef`), the six predefined constants and their sources, the `@` search-start rule, '
          'the output alphabet (only eip esp ebp ebx esi edi reported), clearing before evaluation and framedata-before-fpo priority are extracted and checked; every register name handed to the FrameWalker interface must be a name the x86 context knows. '
          'The last rule exposes a genuine defect (names are cleared with a `$` prefix, so nothing is cleared and callee registers are forwarded); it is a recorded known finding because the obvious repair changes two existing CLI snapshots. '
-         'Two overflow panics in this code were repaired in /repo. Numeric results are not computed. FPO formula table (C07.6): for every path to every set_caller_register call in walk_with_stack_win_fpo the reaching definitions are substituted into the value and compared, as linear address forms, with the documented $eip/$esp/$ebp/%ebx formulae incl. the leftover-return-address skip; the branch conditions must be the documented decisions. C07.7: the grand-callee facts the FPO skip and .cbParams rest on (CfiStackWalker.has_grand_callee = grand_callee_frame.is_some(), grand_callee_parameter_size = its parameter_size or 0, accessors return the fields) are pinned field by field. C07.8: literals are parsed with i64 precision in both evaluators. C07.6 also bounds what each FPO path demands: a `?` on a callee register or stack read may sit only on the paths whose documented formula uses that input (esp always; eip on context frames; ebp only when the record passes it through; the saved-ebp slot only when the record allocates a base pointer).',
+         'Two overflow panics in this code were repaired in /repo. Numeric results are not computed. FPO formula table (C07.6): for every path to every set_caller_register call in walk_with_stack_win_fpo the reaching definitions are substituted into the value and compared, as linear address forms, with the documented $eip/$esp/$ebp/%ebx formulae incl. the leftover-return-address skip; the branch conditions must be the documented decisions. C07.7: the grand-callee facts the FPO skip and .cbParams rest on (CfiStackWalker.has_grand_callee = grand_callee_frame.is_some(), grand_callee_parameter_size = its parameter_size or 0, accessors return the fields) are pinned field by field. C07.8: literals are parsed with i64 precision in both evaluators. `=`: once both operands are popped, the next token is reached only through the remove or the insert (no shortcut that neither reads the right-hand side nor assigns). C07.6 also bounds what each FPO path demands: a `?` on a callee register or stack read may sit only on the paths whose documented formula uses that input (esp always; eip on context frames; ebp only when the record passes it through; the saved-ebp slot only when the record allocates a base pointer).',
     note='Trusted: rustc MIR, u32::wrapping_* semantics. Table entries marked ASSUMPTION (32-bit callee registers) apply to the FPO arithmetic.',
     ref='DESIGN.md §3 C07')
 
@@ -137,7 +137,7 @@ CLAIMS['C10'] = dict(
     technique='consume/callback pairing by dominance, return-shape dataflow, transition-table equality of the sync and async parse loops; finite-domain abstract interpretation of the streaming loops (staleness bit)',
     text='Narrow claim: in SymbolFile::parse and parse_async every buf.consume(n) is dominated by callback(&buf.data()[..n]) with nothing touching the buffer in between and no other way for bytes to leave the window, so the bytes handed to the callback are exactly the consumed prefix; '
          'parse_more returns 0 or the length of the input trimmed after its last newline; the two loops have identical transition tables (every buffer / flag / return effect with its guard conditions), so HTTP chunking feeds the same state machine as a Read; the cache tee is a pure writer. '
-         'Equality of parse outcomes across chunk schedules is behavioural and not decided. The same boolean abstraction decides (C10.5) that fully_consumed is never tested for the end-of-input decision while bytes have arrived since it was last computed, for every chunking. Liveness analysis shows the remaining-input slice is the only local carried round parse_more\'s line loop (C10.6): no per-call state that a chunk boundary would reset. C10.8: every field tokeniser of the record parsers is evaluated on a line feed and must stop there. C10.9: recovery on a zero-length read only when the buffer is full (known finding). C10.10: the capacity ladder INITIAL * K^i, folded from the with_capacity constant, the grow() step and the refusal test `new_cap > MAX` read from both loops, must reach at least 2 x 80 KiB, because a line is only guaranteed to fit in half the window.',
+         'Equality of parse outcomes across chunk schedules is behavioural and not decided. The same boolean abstraction decides (C10.5) that fully_consumed is never tested for the end-of-input decision while bytes have arrived since it was last computed, for every chunking. Liveness analysis shows the remaining-input slice is the only local carried round parse_more\'s line loop (C10.6): no per-call state that a chunk boundary would reset. C10.8: every field tokeniser of the record parsers is evaluated on a line feed and must stop there. C10.9: recovery on a zero-length read only when the buffer is full (known finding). C10.11: parse_more reports a non-zero count only from inside its per-line loop, so every consumed line is seen by the line state machine however the input was chunked. C10.10: the capacity ladder INITIAL * K^i, folded from the with_capacity constant, the grow() step and the refusal test `new_cap > MAX` read from both loops, must reach at least 2 x 80 KiB, because a line is only guaranteed to fit in half the window.',
     note='Trusted: circular::Buffer (data / consume semantics), rustc MIR of the coroutine before the state transform.',
     ref='DESIGN.md §3 C10')
 CLAIMS['C11'] = dict(
@@ -152,14 +152,14 @@ CLAIMS['C02'] = dict(
     technique='endianness provenance dataflow on every scroll read, LE/BE twin comparison of byte-order branches, derive pairing from the impl table, insert discipline of the directory loop; who-may-call on text decoders',
     text='Narrow claim: only the byte-order and layout-pairing clauses. Every scroll read that takes an Endian context (329 call sites in minidump and minidump-common) receives an endianness data-flow-derived from a parameter or field, '
          'and Endian constants occur only in the signature probe of Minidump::read; every branch on the byte order has a Little and a Big arm that are LE/BE twins; every format.rs type read through scroll derives Pread and SizeWith from one field list '
-         '(the five hand-written readers are a reviewed list); duplicate directory entries are stored by an unconditional insert in file order, so the last one is served. Field offsets/padding against the serializer, identifier derivation and memory contents relate values to values and are NOT decided. Text decoding: only the BOM-agnostic, replacement-free encoding_rs decoders, with the UTF-16 encoding selected by the byte order (arms read from discriminant facts). The directory loop records entries only and the cached system info is read through the finished map (C02.4b). C02.6: memory regions carry base / size / bytes straight from their descriptor (Memory64 slices consecutive). C02.7: the CPU_INFORMATION union (24 undecoded bytes) is only ever consumed as the receiver of pread_with(_, 0, endian), never byte-wise. C02.8/C02.9: the debug-id and code-id derivation tables (read_debug_id, MinidumpModule::code_identifier) are extracted arm by arm: Pdb20/Pdb70/Elf forms, the Elf all-zero test over the whole build id, GUID read at offset 0 with the dump\'s byte order, format templates from the compiled constants. C02.10: the CPU table of the system info and the context-layout table of MinidumpContext::read cover the same architectures.',
+         '(the five hand-written readers are a reviewed list; of these, CV_INFO_ELF must take the build id as the unmodified rest of the record, C02.11); duplicate directory entries are stored by an unconditional insert in file order, so the last one is served. Field offsets/padding against the serializer, identifier derivation and memory contents relate values to values and are NOT decided. Text decoding: only the BOM-agnostic, replacement-free encoding_rs decoders, with the UTF-16 encoding selected by the byte order (arms read from discriminant facts). The directory loop records entries only and the cached system info is read through the finished map (C02.4b). C02.6: memory regions carry base / size / bytes straight from their descriptor (Memory64 slices consecutive). C02.7: the CPU_INFORMATION union (24 undecoded bytes) is only ever consumed as the receiver of pread_with(_, 0, endian), never byte-wise. C02.8/C02.9: the debug-id and code-id derivation tables (read_debug_id, MinidumpModule::code_identifier) are extracted arm by arm: Pdb20/Pdb70/Elf forms, the Elf all-zero test over the whole build id, GUID read at offset 0 with the dump\'s byte order, format templates from the compiled constants. C02.10: the CPU table of the system info and the context-layout table of MinidumpContext::read cover the same architectures.',
     note='Trusted: scroll and its derives, rustc MIR and impl table.',
     ref='DESIGN.md §3 C02')
 CLAIMS['C15'] = dict(
     technique='document/code key-tree agreement (JSON key tree reconstructed from the MIR of json! expansions vs the pseudo-JSON of json-schema.md), value provenance, dominance',
     text='Narrow claim: structure, not values. The tree of object keys print_json can emit (reconstructed from the MIR of every json! expansion, map["k"] = .. and insert mutation, and serde-derived struct reachable from it) equals the key tree of json-schema.md in both directions '
          '(one reviewed documentation gap: proc_limits); every key documented <hexstring> is built by json_hex, an Address (serialised through its Display impl) or a hex format; every documented enumeration value can be produced; '
-         'set_print_context() dominates all formatting; thread_count / frame_count / frame / module_offset / function_offset / the crashing_thread copy / modules are computed from the data they duplicate; bytes reach the writer only through serde_json. '
+         'set_print_context() dominates all formatting; thread_count / frame_count / frame / module_offset / function_offset / the crashing_thread copy / modules are computed from the data they duplicate (between its clone and its insertion the crashing_thread copy is touched only by the inserts of `registers` and `threads_index`: no call that shortens, reorders or replaces parts of it); bytes reach the writer only through serde_json. '
          'Validity and escaping are serde_json\'s; schema conformance of values for hostile states is not decided. set_print_context stores this state\'s pointer width into the thread-local unconditionally and is its only writer (C15.3b). Every JSON array is a map over the whole collection it reports: no truncating / filtering adapter (C15.6).',
     note='Trusted: serde_json (valid UTF-8 JSON, escaping, BTreeMap-backed Map), the json! macro expansion shape as seen in MIR, rustc.',
     ref='DESIGN.md §3 C15')
@@ -171,7 +171,7 @@ CLAIMS['C14'] = dict(
          'exception-thread-id.or(breakpad requesting id) == Some(id) and passed the dump-writer-thread early return, and on those paths the walk context is exception_context.or(thread_context), on the others the thread\'s own context; '
          'get_crash_address reads exception_information[1] only for Windows access-violation / in-page errors with number_parameters >= 2 and truncates to 32 bits exactly when pointer_width is Bits32; ExceptionInfo is fed from get_crash_reason / get_crash_address(os, cpu); '
          'process id comes from misc info else Linux status, create time from misc info, time from the header; modules / unloaded modules / system info / handles are the streams\' values; per-frame unloaded offsets are frame.instruction - base_of_image over modules_at_address(frame.instruction) for frames without a module. '
-         'The value-level mapping exception code -> crash reason is NOT decided. C14.7: the Linux status pid has no made-up default (known finding).',
+         'The value-level mapping exception code -> crash reason is NOT decided. C14.7: the Linux status pid has no made-up default (known finding). Every thread that is not the dump writer reaches the requesting-thread decision: the per-thread closure has no other exit before it. The OS / exception-code case split of get_crash_address is decided per enum variant (which variants of Os and of ExceptionCodeWindows reach the read of exception_information[1]), independent of how the split is spelled.',
     note='Trusted: enumerate/map/collect/zip/join_all preserve positions; MinidumpThread::context and MinidumpException::context decode the right bytes (field-level reading is C02\'s claim). A behaviour-preserving rewrite of these few functions into a different dataflow shape would need the rule updated.',
     ref='DESIGN.md §3 C14')
 
